@@ -770,3 +770,65 @@ Proof.
   destruct (rev_entry (k_set k) (hour_of (k_arr k) + 1)) as [i|]; [|reflexivity].
   f_equal. apply fold_left_ext_in. intros st c. apply revall_step_tie.
 Qed.
+
+(* ---------------------------------------------------------------------------------------------- *)
+Ltac gtie_reset := cbv beta delta [G.gen_reset_acc_min G.gen_reset_acc_max G.gen_reset_egr_min G.gen_reset_egr_max
+  G.gen_reset_acc_seed G.gen_reset_egr_seed G.gen_reset_min_init G.gen_reset_max_init G.MAX_INT MAX_INT]; lia.
+
+(* 7. Calculator::reset (resets.cpp): running minimum / maximum of the access and egress walks and the seeded labels *)
+Lemma fold_left_ext_in2 {A B} (f g : A -> B -> A) : (forall a b, f a b = g a b) -> forall l a, fold_left f l a = fold_left g l a.
+Proof. intros H l. induction l as [|x l IH]; intros a; cbn [fold_left]; [reflexivity|]. rewrite H. apply IH. Qed.
+
+(* the source's loop body: two INDEPENDENT tests (if the second were the else-branch of the first, a row that lowers the
+   minimum would never be considered for the maximum) *)
+Definition minmax_step (g_min g_max : Z -> Z -> Z -> bool) (independent : bool) (st : Z * Z) (r : fprow) : Z * Z :=
+  let '(mn, mx) := st in
+  let t := fp_time r in
+  if g_min t mn mx then (t, if independent then (if g_max t mn mx then t else mx) else mx)
+  else (mn, if g_max t mn mx then t else mx).
+
+Lemma minmax_fold_spec : forall rows mn mx,
+  fold_left (minmax_step (fun t mn _ => t <? mn) (fun t _ mx => t >? mx) true) rows (mn, mx) =
+  (fold_left (fun a r => if fp_time r <? a then fp_time r else a) rows mn,
+   fold_left (fun a r => if fp_time r >? a then fp_time r else a) rows mx).
+Proof.
+  induction rows as [|r rows IH]; intros mn mx; cbn [fold_left]; [reflexivity|].
+  unfold minmax_step at 2. cbv beta iota.
+  destruct (fp_time r <? mn); destruct (fp_time r >? mx); apply IH.
+Qed.
+
+Theorem reset_access_minmax_tie : forall rows,
+  G.gen_reset_acc_tests_independent = true /\
+  fold_left (minmax_step G.gen_reset_acc_min G.gen_reset_acc_max G.gen_reset_acc_tests_independent) rows
+            (G.gen_reset_min_init, G.gen_reset_max_init) = (min_time rows, max_time rows).
+Proof.
+  intros rows. split; [reflexivity|].
+  unfold min_time, max_time. rewrite <- minmax_fold_spec.
+  change G.gen_reset_min_init with MAX_INT. change G.gen_reset_max_init with (-1).
+  apply fold_left_ext_in2. intros [mn mx] r. unfold minmax_step.
+  assert (E1 : G.gen_reset_acc_min (fp_time r) mn mx = (fp_time r <? mn)) by gtie_reset.
+  assert (E2 : G.gen_reset_acc_max (fp_time r) mn mx = (fp_time r >? mx)) by gtie_reset.
+  rewrite E1, E2. reflexivity.
+Qed.
+
+Theorem reset_egress_minmax_tie : forall rows,
+  G.gen_reset_egr_tests_independent = true /\
+  fold_left (minmax_step G.gen_reset_egr_min G.gen_reset_egr_max G.gen_reset_egr_tests_independent) rows
+            (G.gen_reset_min_init, G.gen_reset_max_init) = (min_time rows, max_time rows).
+Proof.
+  intros rows. split; [reflexivity|].
+  unfold min_time, max_time. rewrite <- minmax_fold_spec.
+  change G.gen_reset_min_init with MAX_INT. change G.gen_reset_max_init with (-1).
+  apply fold_left_ext_in2. intros [mn mx] r. unfold minmax_step.
+  assert (E1 : G.gen_reset_egr_min (fp_time r) mn mx = (fp_time r <? mn)) by gtie_reset.
+  assert (E2 : G.gen_reset_egr_max (fp_time r) mn mx = (fp_time r >? mx)) by gtie_reset.
+  rewrite E1, E2. reflexivity.
+Qed.
+
+(* the seeded labels: nodesTentativeTime = departure + walk, nodesReverseTentativeTime = arrival - walk *)
+Theorem reset_seeds_tie : forall dep arr rows,
+  seed_tau dep rows = fold_left (fun m r => upd m (fp_node r) (G.gen_reset_acc_seed dep arr (fp_time r))) rows (fun _ => MAX_INT) /\
+  seed_taur arr rows = fold_left (fun m r => upd m (fp_node r) (G.gen_reset_egr_seed dep arr (fp_time r))) rows (fun _ => -1).
+Proof.
+  intros dep arr rows. unfold seed_tau, seed_taur. split; apply fold_left_ext_in2; intros m r; f_equal; gtie_reset.
+Qed.
